@@ -79,6 +79,11 @@ where
 
     pub fn next(&mut self, stream: &mut Stream<U, E>) -> Option<Box<State<U, E>>> {
         loop {
+            #[cfg(proto_vulcan_verif)]
+            {
+                crate::verif::tick();
+                crate::verif::engine_event("next", stream as &dyn Any);
+            }
             #[cfg(feature = "debugger")]
             if self.debug_enabled {
                 self.debugger.next_step(stream);
@@ -114,6 +119,8 @@ where
     /// Returns a reference to next element in the stream, if any.
     pub fn peek<'a>(&self, stream: &'a mut Stream<U, E>) -> Option<&'a Box<State<U, E>>> {
         loop {
+            #[cfg(proto_vulcan_verif)]
+            crate::verif::tick();
             match stream {
                 Stream::Lazy(_) => {
                     if let Stream::Lazy(LazyStream(lazy)) = std::mem::replace(stream, Stream::Empty)
@@ -130,6 +137,8 @@ where
     /// the remaining element if any.
     pub fn trunc<'a>(&self, stream: &'a mut Stream<U, E>) -> Option<&'a Box<State<U, E>>> {
         loop {
+            #[cfg(proto_vulcan_verif)]
+            crate::verif::tick();
             match std::mem::replace(stream, Stream::Empty) {
                 Stream::Empty => return None,
                 Stream::Lazy(LazyStream(lazy)) => {
